@@ -1389,8 +1389,13 @@ def gen_history_scanner(tree, workdir, spec, cfg, mode, extra_options=(), base='
     """All rules share one action site (the documented '|' action) whose body
     is the VP_ACT macro; the macro text is placed in a section-1 code block so
     that flex sees the REJECT / yymore() it contains."""
-    assert not spec.has_trailing and not spec.eofs
-    if mode == 'reject':
+    sites = mode.endswith('_sites')      # one action site per rule (trailing context allowed)
+    assert (sites or not spec.has_trailing) and not spec.eofs
+    if mode == 'reject_sites':
+        body = 'if (vp_visit(yy_act, yytext, yyleng)) { REJECT; } return yy_act;'
+    elif mode == 'yyreject_sites':
+        body = 'if (vp_visit(yy_act, yytext, yyleng)) { yyreject(); } return yy_act;'
+    elif mode == 'reject':
         body = 'if (vp_visit(yy_act, yytext, yyleng)) { REJECT; } return yy_act;'
     elif mode == 'yyreject':
         body = 'if (vp_visit(yy_act, yytext, yyleng)) { yyreject(); } return yy_act;'
@@ -1414,8 +1419,15 @@ def gen_history_scanner(tree, workdir, spec, cfg, mode, extra_options=(), base='
 
     saved = [r.fallthrough for r in spec.rules]
     try:
-        for r in spec.rules:
+        for i, r in enumerate(spec.rules):
             r.fallthrough = (r.num != last)
+            if sites:
+                # a rule with trailing context keeps its own action site (with a preceding '|' flex makes
+                # its trailing context variable); so does the rule before it; the others share one site.
+                # Few sites matter: every textual REJECT is one more back edge into find_rule.
+                nxt = spec.rules[i + 1] if i + 1 < len(spec.rules) else None
+                if r.trail is not None or (nxt is not None and nxt.trail is not None):
+                    r.fallthrough = False
         g = gen_scanner(tree, workdir, spec, cfg, action=action, extra_options=extra_options,
                         prologue=prologue, base=base)
     finally:
@@ -1425,8 +1437,14 @@ def gen_history_scanner(tree, workdir, spec, cfg, mode, extra_options=(), base='
     return g
 
 
-def e4_reject_harness(g, cfg, spec, n, maxnul=1, witness=False, rej_k=None):
-    H = [common_head(g, cfg, spec, max(n, 1))]
+def e4_reject_harness(g, cfg, spec, n, maxnul=1, witness=False, rej_k=None, interior=False):
+    """interior: one more symbolic byte follows the N bytes and the input is restricted to those on which
+    the match attempt jams at or before that byte, so the end-of-buffer code is never entered (its back
+    edges get unwind bound 1 and the unwinding assertions prove they are not taken).  Cheaper by an order
+    of magnitude; the unrestricted variant keeps covering tokens that run into the end of the buffer."""
+    tail = 1 if interior else 0
+    H = [common_head(g, cfg, spec, max(n, 1) + tail)]
+    H.append('#define VP_TAIL %d' % tail)
     if rej_k is not None:
         H.append('#define VP_REJ_K %d' % rej_k)
     H.append('#define VP_N %d' % n)
@@ -1435,11 +1453,11 @@ def e4_reject_harness(g, cfg, spec, n, maxnul=1, witness=False, rej_k=None):
     if witness:
         H.append('#define VP_WITNESS 1')
     H.append(r'''
-unsigned char vpi_in[VP_N > 0 ? VP_N : 1];
+unsigned char vpi_in[VP_N + VP_TAIL > 0 ? VP_N + VP_TAIL : 1];
 unsigned char vpi_rej[VP_MAXVIS];
 int vpi_sc, vpi_bol;
 int vp_arg, vp_inp;
-static char vp_buf[VP_N + 2];
+static char vp_buf[VP_N + VP_TAIL + 2];
 static int vp_nvis;
 /* reference: all (length, rule) matches at the start of the input, longest
  * first, rule order within a length (manual, REJECT) */
@@ -1451,7 +1469,8 @@ int vp_visit(int act, const char *text, int leng) {
   int v = vp_nvis++;
   VP_ASSERT(v < vp_nexp, "REJECT visits only matches that exist");
   VP_ASSERT(act == vp_exp_rule[v], "REJECT proceeds to the next-best rule in the documented order");
-  VP_ASSERT(leng == vp_exp_len[v], "yyleng of the alternative match");
+  /* for r/s the action sees a head of a valid split of the alternative match (p == total for plain rules) */
+  VP_ASSERT(leng >= 0 && leng <= vp_exp_len[v] && vp_split_ok(act, vpi_in, leng, vp_exp_len[v]), "yyleng of the alternative match");
   for (int i = 0; i < VP_N; i++) if (i < leng) VP_ASSERT((unsigned char)text[i] == vpi_in[i], "yytext of the alternative match");
   VP_ASSERT(text[leng] == 0, "yytext terminated");
 #ifdef VP_REJ_K
@@ -1466,24 +1485,30 @@ int main(void) {
 #ifdef REPLAY
 #include "vp_replay_set.inc"
 #else
-  for (int i = 0; i < VP_N; i++) vpi_in[i] = nondet_uchar();
+  for (int i = 0; i < VP_N + VP_TAIL; i++) vpi_in[i] = nondet_uchar();
   for (int i = 0; i < VP_MAXVIS; i++) vpi_rej[i] = nondet_uchar();
   vpi_sc = nondet_int(); vpi_bol = nondet_int();
 #endif
   VP_ASSUME(vpi_sc >= 0 && vpi_sc < VP_NSC);
   VP_ASSUME(vpi_bol == 0 || vpi_bol == 1);
   int nuls = 0;
-  for (int i = 0; i < VP_N; i++) { if (vpi_in[i] == 0) nuls++; vp_buf[i] = (char)vpi_in[i]; }
+  for (int i = 0; i < VP_N + VP_TAIL; i++) { if (vpi_in[i] == 0) nuls++; vp_buf[i] = (char)vpi_in[i]; }
   VP_ASSUME(nuls <= VP_MAXNUL);
   for (int i = 0; i < VP_MAXVIS; i++) VP_ASSUME(vpi_rej[i] <= 1);
 #ifdef VP_REJ_K
   for (int i = 0; i < VP_MAXVIS; i++) VP_ASSUME(vpi_rej[i] == (i < VP_REJ_K));
 #endif
-  vp_buf[VP_N] = 0; vp_buf[VP_N + 1] = 0;
+  vp_buf[VP_N + VP_TAIL] = 0; vp_buf[VP_N + VP_TAIL + 1] = 0;
   /* per prefix length, the set of matching rules */
   uint64_t acc[VP_N + 1];
   { vp_state s; vp_init(&s); acc[0] = 0;
-    for (int i = 0; i < VP_N; i++) { vp_step(&s, i == 0, vpi_in[i], vpi_sc, vpi_bol); acc[i + 1] = vp_accset(&s); } }
+    for (int i = 0; i < VP_N; i++) { vp_step(&s, i == 0, vpi_in[i], vpi_sc, vpi_bol); acc[i + 1] = vp_accset(&s); }
+#if VP_TAIL
+    /* the match attempt jams at the byte behind the N bytes at the latest: the end of the buffer is not reached */
+    vp_step(&s, VP_N == 0, vpi_in[VP_N], vpi_sc, vpi_bol);
+    VP_ASSUME(!vp_alive(&s));
+#endif
+  }
   vp_nexp = 0;
   for (int L = VP_N; L >= 1; L--)
     for (int r = 1; r <= VP_NRULES; r++)
@@ -1493,13 +1518,13 @@ int main(void) {
   for (int v = 0; v < VP_MAXVIS; v++) if (v < vp_nexp) { last = v; if (vp_exp_rule[v] == VP_DEFAULT_RULE || !vpi_rej[v]) break; }
   vp_expect_fatal = 0;
   VP_INIT_SCANNER();
-  yybuffer b = VP_SCAN_BUFFER(vp_buf, VP_N + 2);
+  yybuffer b = VP_SCAN_BUFFER(vp_buf, VP_N + VP_TAIL + 2);
   VP_ASSERT(b != 0, "yy_scan_buffer");
   VP_BEGIN(vpi_sc); VP_SETBOL(vpi_bol);
   int t = VP_LEX();
-  if (VP_N == 0) { VP_ASSERT(t == 0, "end of input"); return 0; }
+  if (VP_N + VP_TAIL == 0) { VP_ASSERT(t == 0, "end of input"); return 0; }
   VP_ASSERT(t == vp_exp_rule[last], "token finally returned is the first match whose action did not reject");
-  VP_ASSERT(VP_LENG == vp_exp_len[last], "length of the token finally returned");
+  VP_ASSERT(VP_LENG >= 0 && VP_LENG <= vp_exp_len[last] && vp_split_ok(t, vpi_in, VP_LENG, vp_exp_len[last]), "length of the token finally returned");
   VP_ASSERT(vp_nvis == (vp_exp_rule[last] == VP_DEFAULT_RULE ? last : last + 1), "every alternative before it was visited exactly once, in order");
   VP_ASSERT(VP_G(yy_c_buf_p) == vp_buf + VP_LENG, "scan position is behind the token");
 #ifdef VP_WITNESS
